@@ -1478,3 +1478,54 @@ func ruleC18KeyBytesVerbatim(c *Ctx) {
 		c.verdictIf(bad == "", rule, f, "key bytes", f.Decl.Pos(), "the key bytes reach the crypto module exactly as supplied", "the key bytes are rewritten before the crypto module sees them at "+bad+": password-wrapped keys are binary, so trimming/normalising them makes some generated keys unparsable with their own password")
 	}
 }
+
+// ruleStateless: the pipeline packages keep no package-level mutable state (caches, memo tables): a verdict or a
+// plaintext remembered across calls is replayed for inputs/keys it was never computed for.
+func ruleStateless(rule string, rels ...string) func(*Ctx) {
+	return func(c *Ctx) {
+		c.floor(rule, len(rels), "package-level variable declarations of the pipeline packages")
+		for _, rel := range rels {
+			p := c.pkg(rel)
+			if p == nil {
+				continue
+			}
+			var bad []string
+			for _, file := range p.Syntax {
+				for _, d := range file.Decls {
+					gd, ok := d.(*ast.GenDecl)
+					if !ok || gd.Tok != token.VAR {
+						continue
+					}
+					for _, sp := range gd.Specs {
+						vs := sp.(*ast.ValueSpec)
+						for _, id := range vs.Names {
+							v, ok := p.TypesInfo.Defs[id].(*types.Var)
+							if !ok || id.Name == "_" {
+								continue
+							}
+							// sentinel errors are immutable by convention
+							if n, ok := v.Type().(*types.Named); ok && n.Obj().Name() == "error" {
+								continue
+							}
+							if types.Identical(v.Type(), types.Universe.Lookup("error").Type()) {
+								continue
+							}
+							switch v.Type().Underlying().(type) {
+							case *types.Basic:
+								continue // plain constants-as-vars (strings, numbers)
+							}
+							bad = append(bad, id.Name+" "+v.Type().String()+" at "+c.pos(id.Pos()))
+						}
+					}
+				}
+			}
+			c.verdictIf(len(bad) == 0, rule, nil, "package "+rel, token.NoPos, "no package-level mutable state",
+				"package "+rel+" declares package-level state ("+strings.Join(bad, "; ")+"): results remembered across calls (e.g. keyed by ciphertext or signature only) are handed out for other keys or other signed content")
+		}
+	}
+}
+
+func init() {
+	extend("C08", ruleStateless("C08.stateless-verification", "pkg/signature", "pkg/recovery"))
+	extend("C09", ruleStateless("C09.stateless-decryption", "pkg/encryption", "pkg/recovery"))
+}
